@@ -58,7 +58,7 @@ func cwExpected(w *workload) []rec {
 					add("stats.timers."+s.Name+".histogram", cwDims(append(append([]string(nil), s.Tags...), leTag(b))), float64(cnt), "timer.histogram")
 				}
 				for _, suffix := range allTimerSubs() {
-					out = append(out, rec{Name: "stats.timers." + s.Name + "." + suffix, Tags: tg, Class: gsdSummary, Ser: i, Forbidden: true})
+					out = append(out, rec{Name: "stats.timers." + s.Name + "." + suffix, Tags: tg, Class: gsdClass(s), Ser: i, Forbidden: true})
 				}
 				continue
 			}
@@ -190,7 +190,7 @@ func stdoutExpected(w *workload) []rec {
 					add("stats.timers."+nk+".histogram."+leTag(b), float64(cnt), "timer.histogram")
 				}
 				for _, suffix := range allTimerSubs() {
-					out = append(out, rec{Name: "stats.timers." + nk + "." + suffix, Class: gsdSummary, Ser: i, Forbidden: true})
+					out = append(out, rec{Name: "stats.timers." + nk + "." + suffix, Class: gsdClass(s), Ser: i, Forbidden: true})
 				}
 				continue
 			}
